@@ -235,10 +235,14 @@ Section Step.
 
   (* the value Range passes for a populated field: like Get, but containers are always attached *)
   Definition range_field (o : obj) (own : option nat) (f : nat) (fd : field) : pval :=
-    match nth_error (o_cells o) f, own with
-    | Some (CList _), Some id => PList (f_ty fd) (RField id f)
-    | Some (CMap _), Some id => match f_shape fd with MapOf kk => PMap kk (f_ty fd) (RField id f) | _ => PInvalid end
-    | _, _ => get_field o own f fd
+    match f_shape fd with
+    | Member _ => get_field o own f fd
+    | _ =>
+      match nth_error (o_cells o) f, own with
+      | Some (CList _), Some id => PList (f_ty fd) (RField id f)
+      | Some (CMap _), Some id => match f_shape fd with MapOf kk => PMap kk (f_ty fd) (RField id f) | _ => PInvalid end
+      | _, _ => get_field o own f fd
+      end
     end.
 
   Definition fields_of (mid : nat) : list field :=
